@@ -430,6 +430,10 @@ func (I *skipInterp) eval(v ssa.Value, fr *frame, env *gEnv) gsum {
 			return s
 		}
 		if cal := com.StaticCallee(); cal != nil {
+			// the fixed-size table written as a function: one tag parameter, every return a constant
+			if isSizeFunc(cal) && len(com.Args) == 1 {
+				return gsym("FIX(" + I.tvar(com.Args[0], fr, env) + ")")
+			}
 			// a 32-bit big-endian load through a raw pointer (signature func(unsafe.Pointer) int32)
 			if inRepo(cal) && len(com.Args) == 1 && isUnsafePointer(com.Args[0].Type()) && isInteger(x.Type()) {
 				if off, ok := I.ptrOff(com.Args[0], fr, env); ok && len(off.t) == 0 {
@@ -1662,4 +1666,29 @@ func tightRules(P *Program, r *Result, rule string, fns []*ssa.Function) {
 		}
 		_ = n
 	}
+}
+
+// isSizeFunc: a repository function of one type-tag parameter whose every return
+// is an integer constant (the fixed-size table in switch form).
+func isSizeFunc(fn *ssa.Function) bool {
+	if fn == nil || !inRepo(fn) || fn.Blocks == nil || len(fn.Params) != 1 || !isTagType(fn.Params[0].Type()) {
+		return false
+	}
+	if fn.Signature.Results().Len() != 1 || !isInteger(fn.Signature.Results().At(0).Type()) {
+		return false
+	}
+	rets := returnsOf(fn)
+	if len(rets) < 2 {
+		return false
+	}
+	for _, r := range rets {
+		if _, ok := constInt(r.Results[0]); !ok {
+			return false
+		}
+	}
+	for _, c := range callsIn(fn) {
+		_ = c
+		return false
+	}
+	return true
 }
